@@ -15,6 +15,10 @@ TOOL = 4
 HOLDER_STATS = {}
 
 
+class LockLeftHeld(Exception):
+    pass
+
+
 class Abort(BaseException):
     """Raised inside worker threads to unwind after deadlock / event budget."""
 
@@ -42,6 +46,13 @@ class LockShim(object):
         s = self.holder.sched
         tid = s.tid() if s is not None else None
         if tid is None or s.free_running:
+            if blocking and timeout == -1 and threading.current_thread() is threading.main_thread():
+                # the harness itself, looking at the cache after all workers have finished: nobody is left who could
+                # release the lock, so a lock that cannot be had within seconds is a lock some finished call kept
+                if not self.real.acquire(True, 8):
+                    raise LockLeftHeld('the cache lock is still held although every worker thread has finished: '
+                                       'a call that failed or returned did not give it back')
+                return True
             return self.real.acquire(blocking, timeout)
         while not self.real.acquire(False):
             s.contention += 1
